@@ -1,0 +1,96 @@
+// Copyright 2025 The Go Authors. All rights reserved.
+// Use of this source code is governed by a BSD-style
+// license that can be found in the LICENSE file.
+
+//go:build verif
+
+package quic
+
+// Contracts for the deductive verifier in /verif (govc), property C30: the stream byte buffer
+// (pipe.go). What is under contract here: the window arithmetic and panic-freedom of peek,
+// availableBuffer, discardBefore and pipebuf.end, and the abstract view of peek (the bytes
+// returned are the bytes of the chunk list at stream offsets start, start+1, ...).
+
+// pipeByte is the abstract view of a chunk list: the byte stored for stream offset o, found in the
+// first chunk that reaches beyond o (0 when no chunk does). It is a recursive specification
+// function (uninterpreted, defining equation unfolded once per use).
+//
+//@ pure
+//@ recursive
+func pipeByte(pb *pipebuf, o int64) byte {
+	if pb == nil {
+		return 0
+	}
+	if o < pb.off+int64(len(pb.b)) {
+		if o >= pb.off {
+			return pb.b[o-pb.off]
+		}
+		return 0
+	}
+	return pipeByte(pb.next, o)
+}
+
+// headOK: the window start lies inside (or at the end of) the first chunk.
+//
+//@ pure
+func headOK(p *pipe) bool {
+	return p.head == nil || (0 <= p.head.off && p.head.off <= p.start && p.start <= p.head.off+int64(len(p.head.b)) && p.start <= 1<<62)
+}
+
+// tailOK: the window end lies inside (or at the end of) the last chunk.
+//
+//@ pure
+func tailOK(p *pipe) bool {
+	return p.tail == nil || (0 <= p.tail.off && p.tail.off <= p.end && p.end <= p.tail.off+int64(len(p.tail.b)) && p.end <= 1<<62)
+}
+
+//@ func (*pipebuf).end(pb) (r)
+//@   requires pb != nil
+//@   ensures  r == pb.off + int64(len(pb.b))
+//@
+//@ func (*pipe).peek(p, n) (r)
+//@   requires p != nil && 0 <= n && headOK(p)
+//@   ensures  p.head == nil ==> len(r) == 0
+//@   ensures  p.head != nil ==> int64(len(r)) == min(p.head.off + int64(len(p.head.b)) - p.start, n)
+//@   ensures  p.head != nil ==> samebase(r, p.head.b) && startoff(r) == startoff(p.head.b) + int(p.start - p.head.off)
+//@   ensures  forall i int :: 0 <= i && i < len(r) ==> r[i] == p.head.b[int(p.start - p.head.off) + i]
+//@
+//@ func (*pipe).availableBuffer(p) (r)
+//@   requires p != nil && tailOK(p)
+//@   ensures  p.tail == nil ==> len(r) == 0
+//@   ensures  p.tail != nil ==> int64(len(r)) == p.tail.off + int64(len(p.tail.b)) - p.end
+//@   ensures  p.tail != nil ==> samebase(r, p.tail.b) && startoff(r) == startoff(p.tail.b) + int(p.end - p.tail.off)
+
+// The view of the first chunk: for an offset inside the first chunk, pipeByte is that chunk's byte
+// (so peek's result is the abstract view at offsets start, start+1, ...).
+//
+//@ lemma
+//@ requires pb != nil && pb.off <= o && o < pb.off + int64(len(pb.b)) && 0 <= pb.off && pb.off <= 1<<62
+//@ ensures ok
+func lemmaPipeByteHead(pb *pipebuf, o int64) (ok bool) {
+	return pipeByte(pb, o) == pb.b[o-pb.off]
+}
+
+// recycle hands the chunk back to a sync.Pool (outside the subset): trusted, it touches only the
+// chunk itself.
+//
+//@ func (*pipebuf).recycle(b)
+//@   trusted
+//@   requires b != nil
+//@   modifies b.off, b.next
+
+// discardBefore: the window start becomes off and the end never decreases; chunks are only dropped
+// from the front, and only chunks that end before off; the chunk that becomes the head (if any)
+// reaches at least to off; no chunk's bytes are written.
+//
+//@ func (*pipe).discardBefore(p, off)
+//@   requires p != nil && 0 <= off && off <= 1<<62
+//@   ensures  p.start == off && p.end == max(old(p.end), off)
+//@   ensures  p.head != nil ==> off <= p.head.off + int64(len(p.head.b))
+//@   ensures  p.head == nil ==> p.tail == nil
+//@   ensures  p.head != nil ==> p.tail == old(p.tail)
+//@   ensures  old(p.head) != nil && off <= old(p.head.off) + int64(len(old(p.head.b))) ==> p.head == old(p.head)
+//@   loop 1 invariant p.start == old(p.start) && p.end == old(p.end) && p.tail == old(p.tail)
+//@   loop 1 invariant (p.head == old(p.head) && (p.head != nil ==> p.head.off == old(p.head.off))) || (old(p.head) != nil && old(p.head.off) + int64(len(old(p.head.b))) < off)
+//@   modifies p.head, p.tail, p.start, p.end, pipebuf.off, pipebuf.next
+//@   noframe
